@@ -5,31 +5,9 @@ CG = "crates/qbice/src/engine/computation_graph/"
 ST = "crates/storage/src/"
 
 MUTANTS = [
-    dict(id="X01-tfc-of-clean-node-ignores-non-firewall-callees", file=CG + "repair.rs",
-         old="""                    new_tfcs.extend(
-                        callee_info
-                            .transitive_firewall_callees()
-                            .iter()
-                            .copied(),
-                    );""", new="""                    let _ = callee_info;"""),
-    dict(id="X02-pedantic-flag-lost-when-repairing-callee", file=CG + "repair.rs",
-         old="""                                query_computing.clone(),
-                                pedantic_repair,
-                            ),""", new="""                                query_computing.clone(),
-                                false,
-                            ),"""),
-    dict(id="X03-projection-recompute-not-pedantic", file=CG + "slow_path.rs",
-         old="            CallerKind::BackwardProjectionPropagation => true,", new="            CallerKind::BackwardProjectionPropagation => false,"),
     dict(id="X04-projection-change-does-not-propagate-backwards", file=CG + "slow_path.rs",
          old="""                    (old_kind.is_firewall() || old_kind.is_projection())
                         && updated,""", new="""                    old_kind.is_firewall() && updated,"""),
-    dict(id="X05-recompute-keeps-dirty-edges", file=CG + "slow_path.rs",
-         old="""                execute_query_for == ExecuteQueryFor::RecomputeQuery,
-                continuing_tx,""", new="""                false,
-                continuing_tx,"""),
-    dict(id="X06-backward-projection-chunks-capped", file=CG + "backward_projection.rs",
-         old="        for chunk in backward_projections.chunks(chunk_size) {",
-         new="        for chunk in backward_projections.chunks(chunk_size).take(expected_parallelism) {"),
     dict(id="X07-backward-projection-done-before-join", file=CG + "backward_projection.rs",
          old="""        while let Some(res) = join_set.join_next().await {""",
          new="""        if let Some(res) = join_set.join_next().await {"""),
@@ -45,39 +23,6 @@ MUTANTS = [
                     .seen_value_fingerprint;""", new="""                    .get(callee)
                     .unwrap()
                     .seen_transitive_firewall_callees_fingerprint;"""),
-    dict(id="X10-firewall-callee-contributes-its-own-tfc-not-itself", file=CG + "computing.rs",
-         old="""            QueryKind::Executable(ExecutionStyle::Firewall) => {
-                let _ = self.tfc.insert_sync(callee_id);
-            }""", new="""            QueryKind::Executable(ExecutionStyle::Firewall) => {
-                for q in
-                    callee_info.transitive_firewall_callees().iter().copied()
-                {
-                    let _ = self.tfc.insert_sync(q);
-                }
-            }"""),
-    dict(id="X11-abort-callee-leaves-order-entry", file=CG + "computing.rs",
-         old="""        let mut callee_order = self.callee_info.callee_order.write();
-
-        callee_order.abort_callee(callee);""", new="""        let _ = &self.callee_info.callee_order;"""),
-    dict(id="X12-register-callee-skips-order-when-racing", file=CG + "computing.rs",
-         old="""                vacant_entry.insert_entry(None);
-
-                self.callee_info.callee_order.write().push(*callee);""",
-         new="""                vacant_entry.insert_entry(None);
-
-                if let Some(mut order) = self.callee_info.callee_order.try_write() {
-                    order.push(*callee);
-                }"""),
-    dict(id="X13-unordered-chunk-cancel-counts-as-clean", file=CG + "repair.rs",
-         old="""                            Ok(
-                                ChunkedCalleeCheckDecision::Cancelled
-                                | ChunkedCalleeCheckDecision::Recompute,
-                            )
-                            | Err(_) => {""", new="""                            Ok(ChunkedCalleeCheckDecision::Cancelled) => {}
-                            Ok(ChunkedCalleeCheckDecision::Recompute)
-                            | Err(_) => {"""),
-    dict(id="X14-tfc-diff-checked-for-firewall-callee-only", file=CG + "repair.rs",
-         old="            if !kind.is_firewall() {\n                let tfc_fingerprint_diff", new="            if kind.is_firewall() {\n                let tfc_fingerprint_diff"),
     # ------------------------------------------------------------------ storage
     dict(id="X20-batch-keeps-first-op-on-an-element", file=ST + "write_manager/write_behind.rs",
          old="                occupied_entry.get_mut().insert(element, op);\n                false",
